@@ -3,6 +3,8 @@
 From Coq Require Import NArith ZArith List Bool Lia.
 From SyModel Require Import Engine.
 From SyProofs Require Import Engine_proofs.
+From SyModel Require Import Links.
+From SyProofs Require Import Links_proofs.
 Import ListNotations.
 
 Theorem C08_dry_run_changes_nothing : forall refuse ds c now U keep src dst,
@@ -43,3 +45,11 @@ Proof.
   rewrite E1, E2. split; reflexivity.
 Qed.
 Print Assumptions C08_dry_run_reports_the_plan.
+
+(* symbolic link entries (Model/Links.v): for every link mode, every link and every prior destination entry, what the dry run announces
+   for the entry is what the real run reports, unless the real run fails there (a dry run cannot foresee EEXIST)
+   (`fix: a dry run reports a followed symbolic link as it would be copied`; before it, followed links were announced as skipped) *)
+Theorem C08_dry_run_announces_link_events : forall m s d,
+  link_event m s d <> EvError -> dry_link_event m s d = link_event m s d.
+Proof. exact dry_run_announces_the_real_event. Qed.
+Print Assumptions C08_dry_run_announces_link_events.
